@@ -30,17 +30,22 @@ func init() {
 }
 
 type genOpts struct {
-	kinds     []string // allowed block kinds with repetition = weight
-	maxNodes  int
-	maxDepth  int
+	kinds      []string // allowed block kinds with repetition = weight
+	maxNodes   int
+	maxDepth   int
 	errAnswers bool
 	undeclared bool
+	// tailCtask: the program may end with an activity that has conditional outgoing flows. Several of them can
+	// be true, so several tokens leave it; to stay inside well-defined token semantics the branches contain
+	// only tasks / sequences / exclusive blocks and lead straight to the end event.
+	tailCtask bool
 }
 
 func genOptsC01(idx int, tier string) genOpts {
 	o := genOpts{
-		kinds:    []string{"task", "task", "seq", "seq", "xor", "xor", "par", "par", "incl", "loop", "ctask", "sub"},
-		maxNodes: 14, maxDepth: 3, undeclared: true,
+		kinds:     []string{"task", "task", "seq", "seq", "xor", "xor", "par", "par", "incl", "loop", "sub"},
+		tailCtask: true,
+		maxNodes:  14, maxDepth: 3, undeclared: true,
 	}
 	if tier == "thorough" {
 		o.maxNodes = 26
@@ -159,26 +164,6 @@ func (ge *gen) block(parent string, depth int) eng.Frag {
 			body = ge.g.Seq(lt, ge.block(parent, depth+1))
 		}
 		return ge.g.Loop(parent, body, &eng.Cond{Op: "lt", Var: cv, K: 1 + ge.rng.Intn(3)})
-	case "ctask":
-		// activity with conditional outgoing flows, merged by an exclusive gateway
-		t := ge.task(parent)
-		n := 2 + ge.rng.Intn(2)
-		ge.budget--
-		m := ge.g.Add("exclusiveGateway", "", parent)
-		for i := 0; i < n; i++ {
-			var c *eng.Cond
-			if ge.rng.Intn(4) > 0 {
-				c = ge.cond()
-			}
-			if ge.rng.Intn(3) == 0 {
-				ge.g.Connect(t.Entry, m, c)
-			} else {
-				b := ge.block(parent, depth+1)
-				ge.g.Connect(t.Entry, b.Entry, c)
-				ge.g.Connect(b.Exit, m, nil)
-			}
-		}
-		return eng.Frag{Entry: t.Entry, Exit: m}
 	case "sub":
 		ge.budget -= 3
 		sub := ge.g.SubBegin(parent)
@@ -188,11 +173,43 @@ func (ge *gen) block(parent string, depth int) eng.Frag {
 	return ge.task(parent)
 }
 
+// ctask: an activity with conditional outgoing flows, merged by an exclusive gateway
+func (ge *gen) ctask(parent string) eng.Frag {
+	// activity with conditional outgoing flows, merged by an exclusive gateway
+	t := ge.task(parent)
+	n := 2 + ge.rng.Intn(2)
+	ge.budget--
+	m := ge.g.Add("exclusiveGateway", "", parent)
+	for i := 0; i < n; i++ {
+		var c *eng.Cond
+		if ge.rng.Intn(4) > 0 {
+			c = ge.cond()
+		}
+		if ge.rng.Intn(3) == 0 {
+			ge.g.Connect(t.Entry, m, c)
+		} else {
+			b := ge.block(parent, ge.o.maxDepth-1)
+			ge.g.Connect(t.Entry, b.Entry, c)
+			ge.g.Connect(b.Exit, m, nil)
+		}
+	}
+	return eng.Frag{Entry: t.Entry, Exit: m}
+}
+
 // runProgCase: generate, run on the real engine, record.
 func runProgCase(out *rec.Out, fam string, idx int, rng *rec.Rng, tier string, stats map[string]int, o genOpts) {
 	ge := &gen{g: eng.NewGraph(), rng: rng, o: o, budget: 3 + rng.Intn(o.maxNodes), vars: []string{"v0", "v1", "v2"},
 		loopTask: map[string]string{}, stats: stats}
 	top := ge.block("", 0)
+	if o.tailCtask && rng.Intn(4) == 0 {
+		saved := ge.o.kinds
+		ge.o.kinds = []string{"task", "task", "seq", "xor"}
+		ge.budget += 4
+		ct := ge.ctask("")
+		ge.o.kinds = saved
+		top = ge.g.Seq(top, ct)
+		stats["block_ctask"]++
+	}
 	ge.g.Wrap(top)
 	vars := map[string]any{}
 	varsInt := map[string]int{}
